@@ -17,7 +17,13 @@ least leave nothing behind); (f) chunkparse: ``iter_splitlines(path, chunk_size=
 is fed to the line parsers for every k and the records must equal the whole-file
 parse (and the model); (g) entrypoints: the record-object and label-callback
 FASTA entry points (FastaParser, NcbiFastaParser, GroupFastaParser, text handles,
-``label_to_name=``) against the generated labels.
+``label_to_name=``) against the generated labels; (h) zero-length records (sets of
+the unaligned classes, FASTA / GDE / JSON; harness-written FASTA / GDE; the plain
+entry points): the library's own writer + loader must not lose a named sequence
+silently, the bytes FASTA parser must treat label-only records alike wherever they
+stand, the line parsers behave as documented (strict: RecordError, non-strict:
+skipped); lower-case residues in harness-written FASTA / GDE: the bytes parser
+upper-cases, the line parsers keep the text (both documented).
 """
 
 from __future__ import annotations
@@ -59,12 +65,18 @@ RULE = (
     "MinimalPhylipParser and PamlParser. entrypoints sub-check: FASTA text (plain names; NCBI 'gi|id|db|accession|description' "
     "labels with descriptions that may contain '|' and '>'; 'group:seqid:name' labels in contiguous groups) given as list, path and text "
     "handle to FastaParser (default and moltype seq_maker, MinimalInfo / NameLabelInfo, strict and not), NcbiFastaParser, "
-    "GroupFastaParser (aligned or not, done_groups, default or given moltype) and to iter_fasta_records / MinimalFastaParser with four label_to_name callbacks."
+    "GroupFastaParser (aligned or not, done_groups, default or given moltype) and to iter_fasta_records / MinimalFastaParser with four label_to_name callbacks. "
+    "Zero-length records: one in three ragged roundtrip sets (SequenceCollection, new-type SequenceCollection), one in four unaligned FASTA / GDE variants layouts and one in six "
+    "plain entrypoints texts get empty sequences at the first / a middle / the last position, at two of those, at a drawn subset or everywhere; such sets are written as FASTA, GDE "
+    "and JSON only. Lower case: one in six FASTA / GDE variants layouts is lower-cased (wholly or residue by residue); parsers only, no loader clause."
 )
 ASSUMPTIONS = [
     "names are non-empty printable ASCII (0x20-0x7e) without leading/trailing blanks, unique, and unique after PHYLIP truncation",
     "PHYLIP: the cogent3 writer documents a 9 character label (padded to 10 columns); the expected label is name[:9] with a trailing blank left by the cut removed; harness-written PHYLIP uses the standard 10 column label field, expected label name[:10] stripped",
-    "sequences are upper case and at least 1 long (an empty FASTA record is documented as an error of the strict parser; the bytes parser upper-cases, the line parsers do not, so lower case is outside 'identical records')",
+    "sequences are upper case and at least 1 long in every sub-check except where stated: zero-length sequences are generated for the unaligned classes in roundtrip (what aln.degap() gives for an all-gap row; make_unaligned_seqs accepts them) and for harness-written FASTA / GDE in variants and entrypoints (plain mode); lower case only in harness-written FASTA / GDE of variants",
+    "zero-length records, what is asserted and why: (i) roundtrip: JSON must give the set back exactly; for FASTA and GDE the library's own writer + loader (load_unaligned_seqs through both unaligned classes, load_seq) must give back ALL names and sequences or refuse (RecordError / ValueError from the write or the load; GDE is loaded with the strict line parser and refuses): a named sequence silently missing after write+load contradicts 'returns the same names'; (ii) everything that reads FASTA through the bytes parser (iter_fasta_records on bytes / path / handle, get_parser('fasta'), the loaders on harness-written files) documents nothing about label-only records, so it may keep them all (empty sequence), drop them all, or raise RecordError, but must treat them alike whatever their position and the layout (CRLF, blank lines, missing final newline); (iii) the line parsers as documented and pinned by tests/test_parse/test_fasta.py (test_no_labels_strict, test_no_labels, test_multiple_bad_strict / _not_strict): strict (MinimalFastaParser / MinimalGdeParser strict=True, LineBasedParser, PARSERS['gde'], FastaParser strict) raises RecordError, non-strict (incl. iter_fasta_records on a list) yields exactly the records that have data. Agreement between the bytes and the line family on label-only records is NOT asserted (the strict parser documents them as malformed input)",
+    "every failure of a clause that reads FASTA through the bytes parser while the set holds a zero-length record is reported under one signature per sub-check, .../fasta-bytes-parser[empty-record] (one root cause: a record without a line end inside its chunk is skipped, one with a line end is kept)",
+    "lower case: minimal_converter documents 'coerces lower case bytes to upper case bytes', so the bytes FASTA family is expected to return the upper-cased sequence; the line parsers return the text verbatim (tests/test_parse/test_fasta.py::test_fasta_with_spaces pins lower case coming back from MinimalFastaParser, strict and not); what a collection class does with lower case is documented nowhere (old-type classes upper-case on construction, new-type ones keep what the parser hands them: FASTA upper, GDE / JSON verbatim), so the loaders are not run on lower-case layouts",
     "PHYLIP and PAML are alignment formats: only equal-length sets are written in them; ragged sets use FASTA, GDE and JSON",
     "protein sequences use the 20 amino acids, X B Z, '-' and '?' ('*' is rejected by the protein moltype)",
     "roundtrip/variants/chunks/chunkparse/entrypoints read .zip archives made by the harness with zipfile (single member named after the file); the zipwrite sub-check lets cogent3 write the archive: tests/test_util/test_io.py::test_writes_compressed_formats pins that atomic_write('<x>.zip', mode='wt') followed by open_ gives the text back, and that is the call every collection/tree writer makes, so a .zip destination must round-trip like .gz/.bz2; the member NAME is not asserted (the library's tests read namelist()[0]; cogent3 names it after its temporary file), only that there is exactly one member and that its bytes equal the plain write",
@@ -142,8 +154,27 @@ def _length(draw, width):
     return draw(st.integers(1, 300))
 
 
+def _blank_some(draw, seqs):
+    """zero-length records at the first / a middle / the last position, at two of them, everywhere, or at a drawn subset"""
+    n = len(seqs)
+    pat = draw(st.sampled_from(["first", "last", "middle", "all", "some", "first+last", "middle+last", "first+middle"]))
+    idx = set()
+    if pat == "all":
+        idx = set(range(n))
+    elif pat != "some":
+        if "first" in pat:
+            idx.add(0)
+        if "last" in pat:
+            idx.add(n - 1)
+        if "middle" in pat and n >= 3:
+            idx.add(draw(st.integers(1, n - 2)))
+    if not idx:
+        idx = {i for i in range(n) if draw(st.booleans())} or {draw(st.integers(0, n - 1))}
+    return ["" if i in idx else q for i, q in enumerate(seqs)]
+
+
 @st.composite
-def set_cases(draw):
+def set_cases(draw, empties=True):
     mt = draw(st.sampled_from(["dna", "dna", "rna", "protein"]))
     n = draw(st.sampled_from([1, 2, 2, 3, 3, 4, 5, 6]))
     names = draw(_names(n))
@@ -157,6 +188,9 @@ def set_cases(draw):
     else:
         seqs = [_seq(draw, mt, _length(draw, width)) for _ in range(n)]
         kind = draw(st.sampled_from(["coll", "newcoll"]))
+        if empties and draw(st.integers(0, 2)) == 0:
+            # zero-length records (unaligned classes only): what e.g. aln.degap() gives for an all-gap row
+            seqs = _blank_some(draw, seqs)
     suffixes = {f: draw(st.sampled_from(["", "", ".gz", ".bz2", ".zip"])) for f in TEXT_FORMATS + ["json"]}
     return {
         "moltype": mt,
@@ -182,6 +216,14 @@ def variant_cases(draw):
         seqs = [_seq(draw, mt, L) for _ in range(n)]
     else:
         seqs = [_seq(draw, mt, _length(draw, width)) for _ in range(n)]
+        if draw(st.integers(0, 3)) == 0:
+            seqs = _blank_some(draw, seqs)  # FASTA / GDE records that consist of a label line only
+    if fmt in ("fasta", "gde") and draw(st.integers(0, 5)) == 0:
+        # soft-masked / lower-case residues: the parsers' documented case handling only (no loader clause)
+        if draw(st.booleans()):
+            seqs = [q.lower() for q in seqs]
+        else:
+            seqs = ["".join(ch.lower() if draw(st.booleans()) else ch for ch in q) if len(q) <= 24 else q[: len(q) // 2].lower() + q[len(q) // 2 :] for q in seqs]
     return {
         "moltype": mt,
         "fmt": fmt,
@@ -259,7 +301,7 @@ TREE_SUFFIXES = ["nwk", "tree", "json", "xml"]
 @st.composite
 def zip_cases(draw):
     """a set written by cogent3 itself to ``<name>.<format>.zip`` (all formats of the set), plus a small tree"""
-    case = draw(set_cases())
+    case = draw(set_cases(empties=False))
     del case["suffix"]
     case["overwrite"] = draw(st.integers(0, 2)) == 0
     ntips = draw(st.integers(3, 6))
@@ -316,6 +358,8 @@ def entry_cases(draw):
         n = draw(st.sampled_from([1, 2, 3, 4, 5]))
         case["names"] = draw(st.lists(_name(), min_size=n, max_size=n, unique_by=(lambda x: x, lambda x: x.split()[0])))
         case["seqs"] = [_seq(draw, mt, _length(draw, width)) for _ in range(n)]
+        if draw(st.integers(0, 5)) == 0:
+            case["seqs"] = _blank_some(draw, case["seqs"])
         case["renamer"] = draw(st.sampled_from(["bracket", "first-word", "upper", "reverse"]))
     elif mode == "ncbi":
         n = draw(st.sampled_from([1, 2, 3, 4]))
@@ -400,11 +444,13 @@ class _Clause:
     def __init__(self, s: Soft, sig: str, collapsed=None):
         self.s, self.sig, self.collapsed = s, sig, collapsed
 
-    def call(self, fn):
+    def call(self, fn, allowed=()):
         if self.collapsed is None:
-            return self.s.call(self.sig, fn)
+            return self.s.call(self.sig, fn, allowed=allowed)
         try:
             return True, fn()
+        except allowed as e:  # documented outcome
+            return False, e
         except Exception as e:  # noqa: BLE001
             if not raised_in_repo(e):
                 raise
@@ -415,6 +461,11 @@ class _Clause:
         if self.collapsed is None:
             return self.s.eq(got, want, f"{self.sig}/{part}", what)
         return self.s.eq(got, want, self.collapsed, f"{self.sig}/{part} {what}")
+
+    def check(self, cond, part, what):
+        if self.collapsed is None:
+            return self.s.check(cond, f"{self.sig}/{part}", what)
+        return self.s.check(cond, self.collapsed, f"{self.sig}/{part} {what}")
 
 
 def _clause(s: Soft, sub: str, sig: str, names, reads: str) -> _Clause:
@@ -517,7 +568,117 @@ def _parser_differential(s: Soft, fmt, sub, pre, names, text, path, want, evals)
         c = _clause(s, sub, f"{pre}/parse/{label}", names, reads)
         ok, got = c.call(fn)
         if ok and c.eq([r[0] for r in got], [r[0] for r in want], "labels", f"{label} on {text[:120]!r}"):
-            c.eq([r[1] for r in got], [r[1] for r in want], "seqs", f"{label} on {text[:120]!r}")
+            # documented case handling: the bytes parser coerces lower case to upper case (minimal_converter), the line
+            # parsers return the text as it is (tests/test_parse/test_fasta.py::test_fasta_with_spaces)
+            c.eq([r[1] for r in got], [r[1].upper() if reads == "fasta-bytes" else r[1] for r in want], "seqs", f"{label} on {text[:120]!r}")
+
+
+# ------------------------------------------------- zero-length (label only) records
+def _has_empty(seqs) -> bool:
+    return any(not q for q in seqs)
+
+
+def _kept(want):
+    """the records that have data"""
+    return [w for w in want if w[1]]
+
+
+def _refusals():
+    from cogent3.parse.record import RecordError
+
+    return (RecordError, ValueError)
+
+
+def _empty_classes(s: Soft, seqs):
+    n = len(seqs)
+    idx = [i for i, q in enumerate(seqs) if not q]
+    s.cls("empty-record")
+    if len(idx) == n:
+        s.cls("all-records-empty")
+    else:
+        if 0 in idx:
+            s.cls("empty-record-first")
+        if n - 1 in idx:
+            s.cls("empty-record-last")
+        if any(0 < i < n - 1 for i in idx):
+            s.cls("empty-record-middle")
+    if any(b - a == 1 for a, b in zip(idx, idx[1:])):
+        s.cls("adjacent-empty-records")
+
+
+def _eclause(s: Soft, sub: str, sig: str, names, reads: str) -> _Clause:
+    """clause on a set with zero-length records: everything that reads FASTA through the bytes parser is one
+    circumstance with one root cause (a record that consists of its label line only is kept or dropped depending on
+    what follows it), reported under one signature per sub-check"""
+    if reads == "fasta-bytes":
+        return _Clause(s, sig, f"{sub}/fasta-bytes-parser[empty-record]")
+    return _clause(s, sub, sig, names, reads)
+
+
+def _uniform(c: _Clause, got, want, what) -> bool:
+    """clause (ii): label-only records are treated alike wherever they stand: all of them come back (with an empty
+    sequence) or none of them does; the records with data always come back"""
+    got = [tuple(g) for g in got]
+    return c.check(got == list(want) or got == _kept(want), "empty-records-not-treated-alike", f"{what}: got {got!r}; expected {list(want)!r} or {_kept(want)!r}")
+
+
+def _loaded_records(obj):
+    names = [str(n) for n in obj.names]
+    d = obj.to_dict()
+    return [(n, str(d.get(n))) for n in names]
+
+
+def _parser_differential_empty(s: Soft, fmt, sub, pre, names, text, path, want, evals):
+    """parser entry points on text that holds label-only records.  Documented and pinned by tests/test_parse/test_fasta.py
+    (test_no_labels_strict, test_no_labels, test_multiple_bad_*): the strict line parser raises RecordError, the
+    non-strict one skips such records.  The bytes parser documents nothing: it may keep them all, drop them all, or refuse."""
+    from cogent3.parse import fasta as pfasta
+    from cogent3.parse.record import RecordError
+    from cogent3.parse.sequence import PARSERS, LineBasedParser, get_parser
+
+    lines = text.splitlines()
+    P = pathlib.Path
+    if fmt == "fasta":
+        entries = [
+            ("iter_fasta_records(bytes)", "bytes", "fasta-bytes", lambda: _records(pfasta.iter_fasta_records, text.encode("ascii"))),
+            ("iter_fasta_records(list)", "lenient", "memory", lambda: _records(pfasta.iter_fasta_records, list(lines))),
+            ("MinimalFastaParser(list,strict)", "strict", "memory", lambda: _records(pfasta.MinimalFastaParser, list(lines), strict=True)),
+            ("MinimalFastaParser(list,non-strict)", "lenient", "memory", lambda: _records(pfasta.MinimalFastaParser, list(lines), strict=False)),
+            ("LineBasedParser(MinimalFastaParser)(list)", "strict", "memory", lambda: _records(LineBasedParser(pfasta.MinimalFastaParser), list(lines))),
+        ]
+        if path is not None:
+            entries += [
+                ("iter_fasta_records(str-path)", "bytes", "fasta-bytes", lambda: _records(pfasta.iter_fasta_records, path)),
+                ("iter_fasta_records(Path)", "bytes", "fasta-bytes", lambda: _records(pfasta.iter_fasta_records, P(path))),
+                ("get_parser(fasta)(str-path)", "bytes", "fasta-bytes", lambda: _records(get_parser("fasta"), path)),
+                ("MinimalFastaParser(str-path,strict)", "strict", "text-open", lambda: _records(pfasta.MinimalFastaParser, path, strict=True)),
+                ("MinimalFastaParser(Path,non-strict)", "lenient", "text-open", lambda: _records(pfasta.MinimalFastaParser, P(path), strict=False)),
+                ("LineBasedParser(MinimalFastaParser)(str-path)", "strict", "text-open", lambda: _records(LineBasedParser(pfasta.MinimalFastaParser), path)),
+            ]
+    else:
+        p = PARSERS[fmt]
+        entries = [
+            (f"PARSERS[{fmt}](list)", "strict", "memory", lambda: _records(p, list(lines))),
+            ("MinimalGdeParser(list,non-strict)", "lenient", "memory", lambda: _records(pfasta.MinimalGdeParser, list(lines), strict=False)),
+            ("MinimalGdeParser(list,strict)", "strict", "memory", lambda: _records(pfasta.MinimalGdeParser, list(lines), strict=True)),
+        ]
+        if path is not None:
+            entries.append((f"PARSERS[{fmt}](str-path)", "strict", "text-open", lambda: _records(p, path)))
+    for label, family, reads, fn in entries:
+        evals[0] += 1
+        what = f"{label} on {text[:120]!r}"
+        c = _eclause(s, sub, f"{pre}/parse/{label}", names, reads)
+        if family == "bytes":
+            ok, got = c.call(fn, allowed=(RecordError,))
+            if ok:
+                _uniform(c, got, [(n, q.upper()) for n, q in want], what)  # the bytes parser upper-cases (minimal_converter)
+        elif family == "strict":
+            ok, got = c.call(fn, allowed=(RecordError,))
+            c.check(not ok, "strict-parser-accepts-record-without-data", f"{what}: no RecordError, got {got!r}")
+        else:
+            ok, got = c.call(fn)
+            if ok:
+                c.eq(got, _kept(want), "records", what)
 
 
 def _load(kind, path, mt):
@@ -574,6 +735,9 @@ def _roundtrip(s: Soft, case, root):
     s.cls(f"kind={kind}", f"block_size={bs}")
     ok, obj = s.call(f"construct/{kind}", makers[kind])
     if not ok:
+        return
+    if _has_empty(seqs):
+        _roundtrip_empty(s, case, root, obj)
         return
     formats = ["fasta", "gde", "json"] if ragged else ["fasta", "phylip", "paml", "gde", "json"]
     evals = [0]
@@ -646,6 +810,69 @@ def _roundtrip(s: Soft, case, root):
             s.fail(f"{pre}/write/{kind}/non-ascii-output", repr(raw[:80]))
             continue
         _parser_differential(s, fmt, "roundtrip", pre, names, text, path, want, evals)
+    s.evals = evals[0]
+
+
+def _roundtrip_empty(s: Soft, case, root, obj):
+    """a set of an unaligned class that holds zero-length sequences, written by the collection as FASTA, GDE and JSON.
+    Clause (i): the library's own writer + loader never lose a named sequence silently: all names (and sequences) come
+    back, or the write / the load refuses (RecordError / ValueError).  JSON represents the set exactly."""
+    from cogent3 import load_seq
+
+    mt, names, seqs, kind = case["moltype"], case["names"], case["seqs"], case["kind"]
+    bs = case["block_size"]
+    _empty_classes(s, seqs)
+    s.nontrivial = len(names) >= 2
+    refusals = _refusals()
+    want = list(zip(names, seqs))
+    other = "coll" if kind == "newcoll" else "newcoll"
+    evals = [0]
+    for fmt in ("fasta", "gde", "json"):
+        sfx = case["suffix"][fmt]
+        ext = case["fasta_suffix"] if fmt == "fasta" else fmt
+        pre = f"roundtrip/{fmt}[empty-record]"
+        s.cls(f"fmt={fmt}", f"suffix={sfx or 'plain'}")
+        wsfx = "" if sfx == ".zip" else sfx
+        wpath = os.path.join(root, f"w_{fmt}.{ext}{wsfx}")
+        kw = {"block_size": bs} if (bs and fmt != "json") else {}
+        evals[0] += 1
+        ok, _ = s.call(f"{pre}/write/{kind}", lambda: obj.write(wpath, **kw), allowed=refusals)
+        if not ok:
+            s.cls(f"{fmt}-write-refuses-empty-record")
+            continue
+        if not os.path.exists(wpath):
+            s.fail(f"{pre}/write/{kind}/no-file", f"{wpath} was not created")
+            continue
+        raw = _read_raw(wpath)
+        if sfx == ".zip":
+            path = os.path.join(root, f"z_{fmt}.{ext}.zip")
+            _write_raw(path, raw)
+        else:
+            path = wpath
+        what = f"{kind} with zero-length sequences written as {fmt}{sfx} block_size={bs}; names {names!r} lengths {[len(q) for q in seqs]}"
+        for k in (kind,) if fmt == "json" else (kind, other):
+            evals[0] += 1
+            c = _eclause(s, "roundtrip", f"{pre}/load/{k}", names, _reads(fmt))
+            ok, back = c.call(lambda: _load(k, path, mt), allowed=() if fmt == "json" else refusals)
+            if ok:
+                _check_loaded(c, back, want, what)
+            else:
+                s.cls(f"{fmt}-load-refuses-empty-record")
+        if fmt == "json":
+            continue
+        evals[0] += 1
+        c = _eclause(s, "roundtrip", f"{pre}/load_seq", names, _reads(fmt))
+        ok, one = c.call(lambda: load_seq(path, moltype=mt), allowed=refusals)
+        if ok:
+            ok, got = c.call(lambda: (str(one.name), str(one)))
+            if ok:
+                c.eq(got, want[0], "first-record", what)
+        try:
+            text = raw.decode("ascii")
+        except UnicodeDecodeError:
+            s.fail(f"{pre}/write/{kind}/non-ascii-output", repr(raw[:80]))
+            continue
+        _parser_differential_empty(s, fmt, "roundtrip", pre, names, text, path, want, evals)
     s.evals = evals[0]
 
 
@@ -725,8 +952,35 @@ def _variants(s: Soft, case, root):
     if fmt.startswith("phylip") and case["space_blocks"]:
         s.cls("10-column-blocks")
     evals = [0]
+    if _has_empty(seqs):
+        # label-only records (FASTA / GDE): documented behaviour of the line parsers; clause (ii) for everything that goes
+        # through the bytes parser (the loaders included): such records are kept everywhere or dropped everywhere, whatever
+        # their position and the layout (CRLF, blank lines, missing final newline), or the input is refused
+        _empty_classes(s, seqs)
+        pre = f"variants/{fmt}[empty-record]"
+        _parser_differential_empty(s, base, "variants", pre, names, text, path, want, evals)
+        what = f"harness-written {fmt} {text[:160]!r}"
+        lower = any(q != q.upper() for q in seqs)
+        if lower:
+            s.cls("lower-case-residues")
+        for kind in () if lower else ("coll", "newcoll"):
+            evals[0] += 1
+            c = _eclause(s, "variants", f"{pre}/load/{kind}", names, _reads(base))
+            ok, back = c.call(lambda: _load(kind, path, mt), allowed=_refusals())
+            if ok:
+                ok, got = c.call(lambda: _loaded_records(back))
+                if ok:
+                    _uniform(c, got, want, what)
+        s.evals = evals[0]
+        return
     # the text handed to list/bytes based parsers keeps its line ends in the bytes form only
     _parser_differential(s, base, "variants", pre, names, text, path, want, evals)
+    if any(q != q.upper() for q in seqs):
+        # lower case: what a collection does with it is documented nowhere (old-type classes upper-case on construction,
+        # new-type ones keep what the parser hands them): parsers only
+        s.cls("lower-case-residues")
+        s.evals = evals[0]
+        return
     ragged = len({len(q) for q in seqs}) > 1
     what = f"harness-written {fmt} {text[:160]!r}"
     for kind in ("coll", "newcoll") if ragged else ("array", "aln", "coll"):
@@ -1198,6 +1452,59 @@ def _fasta_text(labels, seqs, case):
     return nl.join(lines) + (nl if case["final_nl"] else "")
 
 
+def _entry_plain_empty(s: Soft, case, labels, text, lines, path, evals, what):
+    """plain mode on text with label-only records: the bytes family (handles, label_to_name) under clause (ii), the line
+    family as documented (strict: RecordError; non-strict: such records are skipped)"""
+    from cogent3 import get_moltype, open_
+    from cogent3.parse import fasta as pfasta
+    from cogent3.parse.record import RecordError
+
+    mt, seqs = case["moltype"], case["seqs"]
+    _empty_classes(s, seqs)
+    sub = "entrypoints"
+    want = list(zip(labels, seqs))
+    rn = RENAMERS[case["renamer"]]
+    s.cls(f"renamer={case['renamer']}")
+    renamed = [(rn(n), q) for n, q in want]
+    make_seq = get_moltype(mt).make_seq
+
+    def handle(opener, **kw):
+        with opener() as f:
+            return _records(pfasta.iter_fasta_records, f, **kw)
+
+    entries = [
+        ("iter_fasta_records(open_-handle)", "bytes", "fasta-bytes", lambda: handle(lambda: open_(path)), want),
+        ("iter_fasta_records(bytes,label_to_name)", "bytes", "fasta-bytes", lambda: _records(pfasta.iter_fasta_records, text.encode("ascii"), label_to_name=rn), renamed),
+        ("iter_fasta_records(str-path,label_to_name)", "bytes", "fasta-bytes", lambda: _records(pfasta.iter_fasta_records, path, label_to_name=rn), renamed),
+        ("iter_fasta_records(open_-handle,label_to_name)", "bytes", "fasta-bytes", lambda: handle(lambda: open_(path), label_to_name=rn), renamed),
+        ("iter_fasta_records(list,label_to_name)", "lenient", "memory", lambda: _records(pfasta.iter_fasta_records, list(lines), label_to_name=rn), renamed),
+        ("MinimalFastaParser(list,strict,label_to_name)", "strict", "memory", lambda: _records(pfasta.MinimalFastaParser, list(lines), strict=True, label_to_name=rn), renamed),
+        ("MinimalFastaParser(list,non-strict,label_to_name)", "lenient", "memory", lambda: _records(pfasta.MinimalFastaParser, list(lines), strict=False, label_to_name=rn), renamed),
+        ("MinimalFastaParser(str-path,strict,label_to_name)", "strict", "text-open", lambda: _records(pfasta.MinimalFastaParser, path, strict=True, label_to_name=rn), renamed),
+        ("FastaParser(list,strict)", "strict", "memory", lambda: _records(pfasta.FastaParser, list(lines), strict=True), want),
+        ("FastaParser(list,non-strict)", "lenient", "memory", lambda: _records(pfasta.FastaParser, list(lines), strict=False), want),
+        ("FastaParser(str-path,non-strict)", "lenient", "text-open", lambda: _records(pfasta.FastaParser, path, strict=False), want),
+        (f"FastaParser(list,{mt}.make_seq,non-strict)", "lenient", "memory", lambda: _records(pfasta.FastaParser, list(lines), seq_maker=make_seq, strict=False), want),
+    ]
+    if not case["suffix"]:
+        entries.append(("iter_fasta_records(builtin-open-handle)", "bytes", "fasta-bytes", lambda: handle(lambda: open(path)), want))
+    for label, family, reads, fn, expected in entries:
+        evals[0] += 1
+        c = _eclause(s, sub, f"{sub}/{label}[empty-record]", labels, reads)
+        w = f"{label} on {what}"
+        if family == "bytes":
+            ok, got = c.call(fn, allowed=(RecordError,))
+            if ok:
+                _uniform(c, got, expected, w)
+        elif family == "strict":
+            ok, got = c.call(fn, allowed=(RecordError,))
+            c.check(not ok, "strict-parser-accepts-record-without-data", f"{w}: no RecordError, got {got!r}")
+        else:
+            ok, got = c.call(fn)
+            if ok:
+                c.eq(got, _kept(expected), "records", w)
+
+
 def _entrypoints(s: Soft, case, root):
     from cogent3 import get_moltype, open_
     from cogent3.parse import fasta as pfasta
@@ -1230,7 +1537,9 @@ def _entrypoints(s: Soft, case, root):
             c.eq(got, want, part, f"{label} on {what}")
 
     make_seq = get_moltype(mt).make_seq
-    if mode == "plain":
+    if mode == "plain" and _has_empty(seqs):
+        _entry_plain_empty(s, case, labels, text, lines, path, evals, what)
+    elif mode == "plain":
         want = list(zip(labels, seqs))
         # text handles (io.TextIOWrapper) given to the bytes parser
         def handle(opener, **kw):
@@ -1359,7 +1668,7 @@ FUZZ = {
 
 META = {
     "technique": "Hypothesis-generated name/sequence sets; write->load round trip against the generated set (plain, .gz, .bz2 and .zip written by the library itself), differential between all parser entry points of a format on identical text (cogent3-written and harness-written layouts), chunked line streaming against str.splitlines and, fed to the parsers, against the whole-file parse",
-    "level_text": "Each run writes about 1 600 generated sets (names weighted towards FASTA/PHYLIP/Newick metacharacters, lengths around the wrap width and the PHYLIP label field) in all five formats with plain/gz/bz2/zip suffixes through four collection classes, loads them back and feeds the written text to every parser entry point (bytes, list, tuple, str path, Path; strict and non-strict); a further 1 600 sets are laid out by the harness itself (other widths, CRLF, blank lines, interleaved PHYLIP) and 800 line lists are streamed with every chunk size; 480 sets are written straight to .zip destinations in every format (plus a tree), 480 small files are streamed into the line parsers with every chunk size, and 800 FASTA texts go through the record-object / label-callback entry points.",
-    "level_note": "Exploration only: no coverage-guided byte-level fuzzing of the parsers (the design's atheris part is left out); Clustal/MSF/Nexus/XMFA parsers are not exercised; the name of the member inside a library-written .zip is not asserted; real GenPept LOCUS lines (empty molecule column) are not generated; lower-case and empty sequences are outside the domain.",
+    "level_text": "Each run writes about 1 600 generated sets (names weighted towards FASTA/PHYLIP/Newick metacharacters, lengths around the wrap width and the PHYLIP label field) in all five formats with plain/gz/bz2/zip suffixes through four collection classes, loads them back and feeds the written text to every parser entry point (bytes, list, tuple, str path, Path; strict and non-strict); a further 1 600 sets are laid out by the harness itself (other widths, CRLF, blank lines, interleaved PHYLIP) and 800 line lists are streamed with every chunk size; 480 sets are written straight to .zip destinations in every format (plus a tree), 480 small files are streamed into the line parsers with every chunk size, and 800 FASTA texts go through the record-object / label-callback entry points. About 130 of the roundtrip sets, 80 of the harness layouts and 130 of the entry-point texts hold zero-length records (first / middle / last / all), about 100 layouts are lower case.",
+    "level_note": "Exploration only: no coverage-guided byte-level fuzzing of the parsers (the design's atheris part is left out); Clustal/MSF/Nexus/XMFA parsers are not exercised; the name of the member inside a library-written .zip is not asserted; real GenPept LOCUS lines (empty molecule column) are not generated; zero-length sequences are generated for the unaligned classes and FASTA/GDE/JSON only (not for alignments, PHYLIP, PAML, zipwrite, chunkparse); lower case reaches the FASTA/GDE parsers only, never a collection writer or loader.",
     "design_ref": "DESIGN.md section 1, C06",
 }
